@@ -1,4 +1,5 @@
 """C19 — JSON-lines dump/load round-trips objects, with or without compression."""
+import hashlib
 import os
 import shutil
 import tempfile
@@ -49,9 +50,11 @@ def strict_eq(a, b):
 def case_gen(draw, files=True):
     items = draw(st.lists(OBJ, max_size=6))
     case = {'items': items}
+    if not files:
+        case['cuts'] = draw(st.lists(st.integers(0, 1000), max_size=6))
     if files:
         case['compression'] = draw(st.sampled_from([None, 'gzip', 'zstd']))
-        case['repeat'] = draw(st.sampled_from([1, 1, 40, 1500]))
+        case['repeat'] = draw(st.sampled_from([1, 1, 40, 1500, 1500]))
         case['pad'] = draw(st.sampled_from([0, 0, 7, 301]))
         case['open_obj'] = draw(st.sampled_from([None, None, 'plain', 'short']))
         case['encoding'] = draw(st.sampled_from(['utf-8', 'utf-8', 'utf-16', 'utf-32']))
@@ -94,9 +97,20 @@ def _strings(v):
 
 def check_memory(case):
     items = case['items']
-    ctx = {'items': items}
+    ctx = {'items': items, 'cuts': case.get('cuts')}
     r = drive.collect(rx.from_(items).pipe(rjson.dump(), line.unframe(), rjson.load()))
     H.require_clean(r, 'json dump -> load', **ctx)
+    compare(items, r.items, ctx)
+    # the dumped text cut at arbitrary positions (also directly in front of a newline), as a file read would deliver it
+    d = drive.collect(rx.from_(items).pipe(rjson.dump()))
+    text = ''.join(d.items)
+    pos = [0] + sorted(min(len(text), c * len(text) // 1000 if c <= 1000 else len(text)) for c in (case.get('cuts') or [])) + [len(text)]
+    nl = [i for i, ch in enumerate(text) if ch == '\n']
+    if nl and case.get('cuts'):
+        pos = sorted(pos + [nl[case['cuts'][0] % len(nl)]])      # a cut exactly between a record and its newline
+    chunks = [text[a:b] for a, b in zip(pos, pos[1:])]
+    r = drive.collect(rx.from_(chunks).pipe(line.unframe(), rjson.load()))
+    H.require_clean(r, 'json dump -> re-chunk -> unframe -> load', chunks=chunks[:6], **ctx)
     compare(items, r.items, ctx)
     lab = labels_of(items)
     return {'nontrivial': bool(lab) and len(items) >= 1, 'labels': lab + ['memory']}
@@ -112,11 +126,14 @@ def check_files(case):
             if case['pad']:
                 it = dict(it)
                 it['pad%d' % (n % 3)] = pad[:len(pad) - (n % 5)]
+                # poorly compressible content of varying length: compressors emit output at data-dependent moments
+                it['h'] = hashlib.sha256(b'%d' % n).hexdigest()[:8 + (n * 7) % 57]
             items.append(it)
     if case.get('bigitem') and items:
         # one record whose line is longer than the 64 KiB read / write chunk, in the middle of ordinary ones
         big = dict(items[len(items) // 2])
-        big['big'] = ('x' + chr(0x905) + 'y') * (case['bigitem'] // 5)
+        # poorly compressible, with multi-byte characters sprinkled in
+        big['big'] = ''.join(hashlib.sha256(b'big%d' % j).hexdigest() + chr(0x905) for j in range(case['bigitem'] // 67))
         items.insert(len(items) // 2, big)
     ctx = {k: case[k] for k in ('compression', 'repeat', 'pad', 'open_obj', 'encoding')}
     enc = case['encoding']
